@@ -231,8 +231,10 @@ class RefBuild:
         if X in stack:
             return self.YES
         if X in self.done:
-            memo[X] = self.NO
-            return self.NO
+            # already dealt with in this run: up to date if it succeeded; a target that failed in this
+            # run cannot make anything above it up to date
+            memo[X] = self.YES if self.done[X] == "fail" else self.NO
+            return memo[X]
         r = self.NO
         if not m.built.get(X) or m.failed.get(X) or not m.exists(X):
             r = self.YES
@@ -297,7 +299,7 @@ class RefBuild:
         memo[X] = "def"  # cycle guard
         r = "no"
         if X in self.done:
-            r = "no"
+            r = "def" if self.done[X] == "fail" else "no"
         elif not m.built.get(X) or m.failed.get(X) or not m.exists(X) or m.kind_at_build.get(X) == "always":
             r = "def"
         else:
@@ -374,21 +376,39 @@ class RefBuild:
             if not self.request(d, forced=forced):
                 ok = False
                 if not self.keep_going:
-                    # slack S2: the very next sibling may already have been started when the failure
-                    # of d is noticed (the order in which a finished job and a free token are
-                    # noticed is unspecified); accepted if the implementation was seen to run it
-                    if i + 1 < len(names):
-                        nxt = names[i + 1]
-                        if nxt in self.observed and nxt not in self.done and nxt != parent:
+                    # slack S2: the failure of d is noticed only when the process next has to wait for
+                    # a token; siblings that need no run are passed over without waiting, and the first
+                    # later sibling that does need a run may already have been started (the order in
+                    # which a finished job and a free token are noticed is unspecified).  Accepted if
+                    # the implementation was seen to run it.
+                    for nxt in names[i + 1:]:
+                        if nxt == parent or self.done.get(nxt) == "running":
+                            break
+                        if not forced and (nxt in self.done or not self.would_run(nxt)):
+                            continue
+                        if nxt in self.observed:
                             self.slack.append(nxt)
                             self.request(nxt, forced=forced)
+                        break
                     break
         return ok
+
+    def would_run(self, X):
+        """Would a plain (unforced) request of X start X's script right now?"""
+        m = self.m
+        if X in self.done or X in m.variant or m.is_sourcelike(X) or m.rule_for(X) is None:
+            return False
+        return self.needs_run(X, {}) != self.NO
 
     def request(self, X, forced=False):
         m = self.m
         if X in self.done:
-            return self.done[X] == "ok"
+            # `redo X` runs X's script whether or not X was already built (or failed) as a dependency
+            # earlier in this run; everything else is built at most once per run
+            refire = forced and self.done[X] in ("ok", "fail") and X not in m.variant \
+                and not m.is_sourcelike(X) and m.rule_for(X) is not None
+            if not refire:
+                return self.done[X] == "ok"
         if X in m.variant:  # a .do file is always a plain source
             if not m.exists(X):
                 self.done[X] = "fail"
